@@ -63,7 +63,29 @@ def relabel(params):
         cases.append((pred, ref, {1: top, 5: 2}))
         cases.append((pred, ref, {1: top}))
         cases.append((pred, ref, {1: top, 3: top}))
+    # exhaustive over label NAMES (the routine depends on the arrays only through their label sets): every pair of label sets
+    # within {1..4} (at most 3 labels a side) and every label map from prediction labels to reference labels, injective or not
+    small = []
+    names = [1, 2, 3, 4]
+    for np_ in range(1, 4):
+        for ps in itertools.combinations(names, np_):
+            for nr_ in range(1, 4):
+                for rs in itertools.combinations(names, nr_):
+                    for img in itertools.product([None] + list(rs), repeat=len(ps)):
+                        lm = {p: r for p, r in zip(ps, img) if r is not None}
+                        pred = np.zeros(10, dtype); ref = np.zeros(10, dtype)
+                        for p in ps:
+                            pred[2 * p: 2 * p + 2] = p
+                        for r in rs:
+                            ref[2 * r - 1: 2 * r + 1] = r
+                        small.append((pred, ref, lm))
+    if dtype != "uint8":
+        random.Random(4).shuffle(small)
+        small = small[:1500]
+    cases += small
     for pred, ref, lm in cases:
+        if len(bad) >= 3:
+            break
         try:
             b = _run(pred.copy(), ref.copy(), lm)
         except Exception as e:
